@@ -713,18 +713,40 @@ def outputs (db : Db) (F : OpFunc) (store : List Obj) : List Cmd → List (Excep
 
 /-! ### Curve -/
 
-/-- what a Curve sees of an array: its identity and `len(GetValues())` -/
+/-- the container `GetValues()` of an array returns, as far as its sizes go: a flat sequence of
+numbers (list, tuple, 1-D ndarray) or a sequence of points, each a tuple / row of `width` numbers
+(a list of tuples, a 2-D ndarray) -/
+inductive Shape
+  | flat (n : Nat)
+  | points (rows width : Nat)
+deriving DecidableEq, Repr
+
+/-- Python's `len(values)`: the number of elements of the OUTER sequence, i.e. the number of points -/
+def Shape.len : Shape → Nat
+  | .flat n => n
+  | .points rows _ => rows
+
+/-- `numpy.size(values)`: the number of scalars.  NOT what the code compares; here so that theorems
+can say that agreeing in `size` is neither needed nor enough. -/
+def Shape.size : Shape → Nat
+  | .flat n => n
+  | .points rows width => rows * width
+
+/-- what a Curve sees of an array: its identity and the shape of `GetValues()` -/
 structure ArrRef where
   id : Nat
-  len : Nat
+  shape : Shape
 deriving DecidableEq, Repr
+
+/-- `len(array.GetValues())` -/
+def ArrRef.len (a : ArrRef) : Nat := a.shape.len
 
 structure Curve where
   image : ArrRef
   domain : ArrRef
 deriving DecidableEq, Repr
 
-/-- `Curve._CheckImageAndDomainLength` -/
+/-- `Curve._CheckImageAndDomainLength`: `len(image.GetValues()) != len(domain.GetValues())` -/
 def checkLen (image domain : ArrRef) : Except ErrKind Unit :=
   if image.len ≠ domain.len then .error .value else .ok ()
 
